@@ -16,11 +16,12 @@ sys.setrecursionlimit(20000)
 
 
 class Frame:
-    __slots__ = ("module", "cls", "q", "closure", "spec", "depth", "specenv", "in_contract")
+    __slots__ = ("module", "cls", "q", "closure", "spec", "depth", "specenv", "in_contract", "cm")
 
     def __init__(self, module, cls=None, q=None, closure=None, spec=False, depth=0, specenv=None):
         self.module, self.cls, self.q, self.closure, self.spec, self.depth = module, cls, q, closure, spec, depth
         self.specenv = specenv or {}
+        self.cm = None
 
 
 class Oblig:
@@ -739,7 +740,31 @@ class Interp:
         return [Out(st, "normal")]
 
     def x_yield(self, st, e, fr):
-        raise Unsupported("yield")
+        """`yield` inside a @contextmanager generator that is being run for a `with` statement: the with-body is
+        executed here, in the caller's frame; whatever it does (fall through, raise, return, break) comes out of the
+        yield, so the generator's own try/except/finally around the yield see it exactly as in Python."""
+        cm = getattr(fr, "cm", None)
+        if cm is None:
+            raise Unsupported("yield")
+        if cm.get("used"):
+            raise Unsupported("contextmanager generator yields more than once")
+        cm["used"] = True
+        gen_env = st.env
+        st.env = cm["caller_env"]
+        if e.value is not None and cm.get("as_name"):
+            raise Unsupported("with ... as x over a contextmanager that yields a value")
+        outs = self.exec_block(st, cm["body"], cm["caller_fr"])
+        cm["used"] = False
+        res = []
+        for o in outs:
+            cm_env = o.st.env
+            o.st.env = dict(gen_env)
+            o.st.cm_caller_env = cm_env
+            if o.kind == "normal":
+                res.append(Out(o.st, "normal"))
+            else:
+                res.append(o)          # raise / return / break / continue travel through the generator's finally blocks
+        return res
 
     # ----------------------------------------------------------- expressions
     def ev(self, st, e, fr, k):
@@ -1140,6 +1165,11 @@ class Interp:
                 return self.from_fact(mod["globals"][name])
             raise Unsupported(f"{m.name}.{name} not found")
         full = f"{m.name}.{name}"
+        if full == "sys.version_info":
+            import re as _re
+            mm = _re.match(r"(\d+)\.(\d+)\.(\d+)", self.w.facts["python"])
+            self.stats["builtins_used"].add("sys.version_info of the interpreter that runs urllib3 (facts probe)")
+            return Tup([Sym(pyint(int(x))) for x in mm.groups()])
         if m.name in ("errno",):
             import importlib
             val = getattr(importlib.import_module(m.name), name, None)
@@ -1310,6 +1340,8 @@ class Interp:
         if not (spec or fr.spec):
             self.stats["inlined"].add(f.q)
         if _is_generator(fnode):
+            if f.kind == "contextmanager" or any(getattr(d, "id", getattr(d, "attr", None)) == "contextmanager" for d in fnode.decorator_list):
+                return k(st, self.B.CMV(f, list(args), dict(kwargs)))
             raise Unsupported(f"call of generator function {f.q}")
         caller_env = st.env
         def run(s2, env2):
